@@ -207,6 +207,8 @@ def random_cons(rng):
         n = rng.randint(1, 5)
         flats.append([1, 1, pos, pos + n, pos + 1, pos + n + 1])
         pos += n
+    if rng.random() < 0.5:
+        rng.shuffle(flats)        # the datums of a stream consumed in another order than that of their indices
     variant = rng.choice(variants_for(p))
     if ds and p["cshape"] and (p["join"] == "stack" or ds[0] % p["cshape"][0] == 0) and rng.random() < 0.35:
         variant = "tiff"
